@@ -230,3 +230,20 @@ pub fn union(a: &Mol, b: &Mol) -> Mol {
     m.name = format!("{}+{}", a.name, b.name);
     m
 }
+
+/// `m` with atom `i` moved (at its distance from `j`) so that the angle i-j-k is `theta_deg`; None if i-j-k is collinear already
+pub fn with_angle(m: &Mol, i: usize, j: usize, k: usize, theta_deg: f64) -> Option<Mol> {
+    let sub = |a: [f64; 3], b: [f64; 3]| [a[0] - b[0], a[1] - b[1], a[2] - b[2]];
+    let dot = |a: [f64; 3], b: [f64; 3]| a[0] * b[0] + a[1] * b[1] + a[2] * b[2];
+    let u0 = sub(m.xs[k], m.xs[j]); let lu = dot(u0, u0).sqrt();
+    if lu < 1e-6 { return None; }
+    let u = [u0[0] / lu, u0[1] / lu, u0[2] / lu];
+    let v = sub(m.xs[i], m.xs[j]); let r = dot(v, v).sqrt();
+    let vp = [v[0] - dot(v, u) * u[0], v[1] - dot(v, u) * u[1], v[2] - dot(v, u) * u[2]];
+    let lw = dot(vp, vp).sqrt();
+    if lw < 1e-3 || r < 0.3 { return None; }
+    let d = (180.0 - theta_deg).to_radians();
+    let mut g = m.clone();
+    for c in 0..3 { g.xs[i][c] = m.xs[j][c] + r * (-d.cos() * u[c] + d.sin() * vp[c] / lw); }
+    Some(g)
+}
